@@ -67,13 +67,12 @@ Qed.
 
 (* non-reap primitives only add tombstones, stamped with the write's index *)
 Lemma tombs_grow i p (s : st) k v :
-  (forall u, p <> PReap u) -> tombs s !! k = Some v ->
+  (forall u, p <> PReap u) -> (forall p', p <> PKvDelTree p') -> tombs s !! k = Some v ->
   tombs (papply i p s) !! k = Some v \/ tombs (papply i p s) !! k = Some i.
 Proof.
-  intros Hr Hk. rewrite tombs_papply. destruct p; cbn [tombs_after]; try (left; exact Hk).
+  intros Hr Ht Hk. rewrite tombs_papply. destruct p; cbn [tombs_after]; try (left; exact Hk).
   - destruct (decide (k = k0)) as [->|]; [right; apply lookup_insert|left; rewrite lookup_insert_ne by congruence; exact Hk].
-  - case_bool_decide; [left; exact Hk|].
-    destruct (decide (k = p)) as [->|]; [right; apply lookup_insert|left; rewrite lookup_insert_ne by congruence; exact Hk].
+  - exfalso. eapply Ht. reflexivity.
   - destruct (((fun _ => i) <$> filter (fun kv => kv_sess kv.2 = sid) (kvs s)) !! k) as [w|] eqn:E.
     + right. apply lookup_union_Some_l. rewrite E. apply lookup_fmap_Some in E as (e & <- & _). reflexivity.
     + left. rewrite lookup_union_r by exact E. exact Hk.
@@ -84,8 +83,10 @@ Lemma tombs_new i p (s : st) k v :
 Proof.
   rewrite tombs_papply. destruct p; cbn [tombs_after]; try (left; assumption).
   - intros Hk. apply lookup_insert_Some in Hk as [[_ <-]|[_ Hk]]; [right; reflexivity|left; exact Hk].
-  - case_bool_decide; [left; assumption|].
-    intros Hk. apply lookup_insert_Some in Hk as [[_ <-]|[_ Hk]]; [right; reflexivity|left; exact Hk].
+  - case_bool_decide.
+    + intros Hk. apply map_filter_lookup_Some in Hk as [Hk _]. left; exact Hk.
+    + intros Hk. apply lookup_insert_Some in Hk as [[_ <-]|[_ Hk]]; [right; reflexivity|].
+      apply map_filter_lookup_Some in Hk as [Hk _]. left; exact Hk.
   - intros Hk. apply lookup_union_Some_raw in Hk as [Hk|[_ Hk]]; [|left; exact Hk].
     apply lookup_fmap_Some in Hk as (e & <- & _). right; reflexivity.
   - intros Hk. apply map_filter_lookup_Some in Hk as [Hk _]. left; exact Hk.
@@ -93,11 +94,11 @@ Qed.
 
 (* the sub-index when the listed entries do not change *)
 Lemma kv_list_index_unchanged i p0 p s :
-  Bnd i s -> pvalid i p s ->
+  Bnd i s -> pvalid i p s -> (forall p', p <> PKvDelTree p') ->
   under p0 (kvs (papply i p s)) = under p0 (kvs s) ->
   kv_list_index p0 s <= kv_list_index p0 (papply i p s).
 Proof.
-  intros HBnd Hv Hsame.
+  intros HBnd Hv Hnt Hsame.
   assert (Hr : forall u, p <> PReap u) by (intros u ->; exact Hv).
   pose proof (Bnd_papply i p s HBnd Hv) as HBnd'.
   destruct HBnd as [HB Hkv Htb]. unfold kv_list_index.
@@ -109,7 +110,7 @@ Proof.
   pose proof (kv_table_max_le i _ (bnd_index _ _ HBnd')) as HTi'.
   assert (HG : G <= G').
   { apply mmax_le. intros k v Hk. apply map_filter_lookup_Some in Hk as [Hk Hp]. cbn in Hp.
-    destruct (tombs_grow i p s k v Hr Hk) as [H|H].
+    destruct (tombs_grow i p s k v Hr Hnt Hk) as [H|H].
     - apply (mmax_ub id (tunder p0 (tombs (papply i p s))) k v). apply map_filter_lookup_Some. split; assumption.
     - pose proof (mmax_ub id (tunder p0 (tombs (papply i p s))) k i) as Hu.
       assert (tunder p0 (tombs (papply i p s)) !! k = Some i) as Hl by (apply map_filter_lookup_Some; split; assumption).
@@ -126,13 +127,6 @@ Proof.
   { apply mmax_le. intros k e Hk. apply map_filter_lookup_Some in Hk as [Hk _]. exact (Hkv _ _ Hk). }
   repeat case_bool_decide; destruct HG' as [HG'|HG']; try lia.
 Qed.
-
-(* the delete-tree case that loses updates of a listing: a delete on a STRICTLY shorter prefix *)
-Definition deltree_ok (p0 : string) (p : prim) : Prop :=
-  match p with
-  | PKvDelTree p' => has_prefix p0 p' = true \/ has_prefix p' p0 = false
-  | _ => True
-  end.
 
 Lemma under_lookup p0 (m : gmap string kvent) k :
   under p0 m !! k = if has_prefix p0 k then m !! k else None.
@@ -193,11 +187,11 @@ Proof.
 Qed.
 
 Lemma kv_list_changed i p0 p s :
-  Bnd i s -> pvalid i p s -> deltree_ok p0 p ->
+  Bnd i s -> pvalid i p s -> (forall p', p <> PKvDelTree p') ->
   under p0 (kvs (papply i p s)) <> under p0 (kvs s) ->
   i <= kv_list_index p0 (papply i p s).
 Proof.
-  intros HBnd Hv Hok Hne.
+  intros HBnd Hv Hnt Hne.
   pose proof (Bnd_papply i p s HBnd Hv) as HBnd'.
   assert (Hkv : k_kvs ∈ set_keys p s).
   { apply (kvs_changed i). intros Heq. apply Hne. rewrite Heq. reflexivity. }
@@ -208,13 +202,97 @@ Proof.
   - left. exists k, e'. repeat split; assumption.
   - destruct Hrow as (e & He & [Ht|(p' & -> & Hp')]).
     + right. left. exists k. split; assumption.
-    + (* delete-tree: the tombstone is the tree's prefix, which must lie under the listed prefix *)
-      cbn in Hok. assert (Hpp : has_prefix p0 p' = true).
-      { destruct (has_prefix_comparable _ _ _ Hpk Hp') as [H|H]; [exact H|]. destruct Hok as [H'|H']; [exact H'|congruence]. }
-      destruct (decide (p' = "")) as [->|Hp0].
-      * right. right. apply has_prefix_of_nil, Hpp.
-      * right. left. exists p'. split; [|exact Hpp].
-        rewrite tombs_papply. cbn. rewrite bool_decide_eq_false_2 by exact Hp0. apply lookup_insert.
+    + exfalso. eapply Hnt. reflexivity.
+Qed.
+
+(* the delete-tree: it drops the tombstones under its prefix, so a listing on a longer prefix
+   falls back to the table index (which it has just written); a listing it lies under sees the
+   tree's tombstone; an unrelated listing is untouched *)
+Ltac inl := repeat first [apply elem_of_list_here | apply elem_of_list_further].
+
+Lemma under_empty_le (f : kvent -> N) p0 (m : gmap string kvent) :
+  (forall k e, m !! k = Some e -> has_prefix p0 k = false) -> mmax f (under p0 m) = 0.
+Proof.
+  intros Hno. apply N.le_0_r. apply mmax_le. intros k e Hk. rewrite under_lookup in Hk.
+  destruct (has_prefix p0 k) eqn:Ep; [|discriminate]. rewrite (Hno _ _ Hk) in Ep. discriminate.
+Qed.
+
+Lemma kv_list_deltree i p0 p' s :
+  Bnd i s ->
+  let s' := papply i (PKvDelTree p') s in
+  i <= kv_list_index p0 s' \/
+  (under p0 (kvs s') = under p0 (kvs s) /\ kv_list_index p0 s' = kv_list_index p0 s).
+Proof.
+  intros HBnd s'.
+  assert (Hv : pvalid i (PKvDelTree p') s) by exact I.
+  pose proof (Bnd_papply i _ s HBnd Hv) as HBnd'. fold s' in HBnd'.
+  assert (HT : kv_table_max s' = i).
+  { apply kv_table_max_set; [apply HBnd|]. cbn. case_bool_decide; inl. }
+  pose proof (kv_list_index_le i p0 s HBnd) as Hold.
+  assert (Hkvs : kvs s' = filter (fun kv : string * kvent => has_prefix p' kv.1 = false) (kvs s))
+    by (unfold s'; rewrite kvs_papply; reflexivity).
+  assert (Htb : tombs s' = tombs_after i (PKvDelTree p') s) by (unfold s'; apply tombs_papply).
+  cbn [tombs_after] in Htb.
+  destruct (decide (p0 = "")) as [->|Hp0].
+  { left. apply kv_list_index_ge; [exact HBnd'|intros _; exact HT|right; right; reflexivity]. }
+  destruct (has_prefix p0 p') eqn:E1.
+  - (* the tree's prefix lies under the listed one: its tombstone counts *)
+    left. apply kv_list_index_ge; [exact HBnd'|intros ->; contradiction|].
+    right. left. exists p'. split; [|exact E1].
+    rewrite Htb. rewrite bool_decide_eq_false_2.
+    + apply lookup_insert.
+    + intros ->. apply has_prefix_of_nil in E1. contradiction.
+  - destruct (has_prefix p' p0) eqn:E2.
+    + (* the listed prefix lies strictly under the tree's: nothing is left below it *)
+      left. unfold kv_list_index. rewrite HT. rewrite (bool_decide_eq_false_2 _ Hp0).
+      fold (under p0 (kvs s')). rewrite under_empty_le.
+      2: { intros k e Hk. rewrite Hkvs in Hk. apply map_filter_lookup_Some in Hk as [_ Hk]. cbn [fst] in Hk.
+           destruct (has_prefix p0 k) eqn:Ek; [|reflexivity].
+           rewrite (has_prefix_trans _ _ _ E2 Ek) in Hk. discriminate. }
+      assert (HG : mmax id (filter (fun kt : string * N => has_prefix p0 kt.1 = true) (tombs s')) = 0).
+      { apply N.le_0_r. apply mmax_le. intros k v Hk. apply map_filter_lookup_Some in Hk as [Hk Hpk]. cbn [fst] in Hpk.
+        exfalso. rewrite Htb in Hk. case_bool_decide as Hp'.
+        - apply map_filter_lookup_Some in Hk as [_ Hk]. cbn [fst] in Hk.
+          rewrite (has_prefix_trans _ _ _ E2 Hpk) in Hk. discriminate.
+        - apply lookup_insert_Some in Hk as [[<- _]|[_ Hk]]; [congruence|].
+          apply map_filter_lookup_Some in Hk as [_ Hk]. cbn [fst] in Hk.
+          rewrite (has_prefix_trans _ _ _ E2 Hpk) in Hk. discriminate. }
+      rewrite HG. cbn. rewrite bool_decide_eq_true_2 by reflexivity. lia.
+    + (* unrelated prefixes: the listing and its tombstones are untouched *)
+      assert (Hu : under p0 (kvs s') = under p0 (kvs s)).
+      { apply map_eq. intros k. rewrite !under_lookup, Hkvs.
+        destruct (has_prefix p0 k) eqn:Ek; [|reflexivity].
+        destruct (kvs s !! k) as [e|] eqn:Ee.
+        - apply map_filter_lookup_Some. split; [exact Ee|]. cbn [fst].
+          destruct (has_prefix p' k) eqn:Ek'; [|reflexivity].
+          destruct (has_prefix_comparable _ _ _ Ek Ek') as [H|H]; congruence.
+        - apply map_filter_lookup_None. left. exact Ee. }
+      assert (Ht : filter (fun kt : string * N => has_prefix p0 kt.1 = true) (tombs s') =
+                   filter (fun kt : string * N => has_prefix p0 kt.1 = true) (tombs s)).
+      { apply map_eq. intros k.
+        destruct (has_prefix p0 k) eqn:Ek.
+        2: { transitivity (@None N); [|symmetry]; apply map_filter_lookup_None; right; intros v _; cbn [fst]; congruence. }
+        assert (Hk' : has_prefix p' k = false).
+        { destruct (has_prefix p' k) eqn:Ek'; [|reflexivity].
+          destruct (has_prefix_comparable _ _ _ Ek Ek') as [H|H]; congruence. }
+        assert (Hl : tombs s' !! k = tombs s !! k).
+        { rewrite Htb. case_bool_decide as Hp'.
+          - destruct (tombs s !! k) as [v|] eqn:Ev.
+            + apply map_filter_lookup_Some. split; [exact Ev|exact Hk'].
+            + apply map_filter_lookup_None. left. exact Ev.
+          - rewrite lookup_insert_ne by (intros ->; congruence).
+            destruct (tombs s !! k) as [v|] eqn:Ev.
+            + apply map_filter_lookup_Some. split; [exact Ev|exact Hk'].
+            + apply map_filter_lookup_None. left. exact Ev. }
+        destruct (tombs s !! k) as [v|] eqn:Ev.
+        - transitivity (Some v); [|symmetry]; apply map_filter_lookup_Some; (split; [|exact Ek]); [rewrite Hl; reflexivity|exact Ev].
+        - transitivity (@None N); [|symmetry]; apply map_filter_lookup_None; left; [rewrite Hl; reflexivity|exact Ev]. }
+      unfold kv_list_index. rewrite HT. fold (under p0 (kvs s')) (under p0 (kvs s)). rewrite Hu, Ht.
+      rewrite !(bool_decide_eq_false_2 _ Hp0).
+      set (m := N.max (mmax kv_modify (under p0 (kvs s))) (mmax id (filter (fun kt : string * N => has_prefix p0 kt.1 = true) (tombs s)))).
+      destruct (bool_decide (m = 0)).
+      * left. lia.
+      * right. split; reflexivity.
 Qed.
 
 Lemma single_lookup {A} (k : string) (o : option A) : single k o !! k = o.
@@ -224,23 +302,39 @@ Proof. destruct o; cbn; [apply lookup_singleton|apply lookup_empty]. Qed.
 Inductive kvq : query -> Prop :=
 | kq1 k : kvq (QKVGetEP k) | kq2 p : kvq (QKVList p) | kq3 p sep : kvq (QKVKeys p sep).
 
-Definition kv_ok (q : query) (p : prim) : Prop :=
-  match q with
-  | QKVList p0 | QKVKeys p0 _ => deltree_ok p0 p
-  | _ => True
-  end.
-
 Lemma kv_idx_le i s q : Bnd i s -> kvq q -> idx q s <= i.
 Proof.
   intros HBnd Hq. destruct Hq; cbn [idx]; try (apply kv_list_index_le, HBnd).
   destruct (kvs s !! k) as [e|] eqn:E; [exact (bnd_kv _ _ HBnd _ _ E)|apply kv_table_max_le, HBnd].
 Qed.
 
+Lemma tree_dec p : {p' | p = PKvDelTree p'} + {forall p', p <> PKvDelTree p'}.
+Proof. destruct p; try (right; intros p'; discriminate). left. eexists; reflexivity. Qed.
+
+Lemma kv_list_changed_all i p0 p s :
+  Bnd i s -> pvalid i p s ->
+  under p0 (kvs (papply i p s)) <> under p0 (kvs s) -> i <= kv_list_index p0 (papply i p s).
+Proof.
+  intros HBnd Hv Hne. destruct (tree_dec p) as [[p' ->]|Hnt].
+  - destruct (kv_list_deltree i p0 p' s HBnd) as [H|[H _]]; [exact H|contradiction].
+  - apply kv_list_changed; assumption.
+Qed.
+Lemma kv_list_mono_all i p0 p s :
+  Bnd i s -> pvalid i p s -> kv_list_index p0 s <= kv_list_index p0 (papply i p s).
+Proof.
+  intros HBnd Hv. pose proof (kv_list_index_le i p0 s HBnd) as Hle.
+  destruct (tree_dec p) as [[p' ->]|Hnt].
+  - destruct (kv_list_deltree i p0 p' s HBnd) as [H|[_ H]]; [lia|rewrite H; lia].
+  - destruct (decide (under p0 (kvs (papply i p s)) = under p0 (kvs s))) as [Heq|Hne].
+    + apply kv_list_index_unchanged; assumption.
+    + pose proof (kv_list_changed i p0 p s HBnd Hv Hnt Hne). lia.
+Qed.
+
 Lemma kv_changed i p s q :
-  Bnd i s -> pvalid i p s -> kvq q -> kv_ok q p ->
+  Bnd i s -> pvalid i p s -> kvq q ->
   res q s <> res q (papply i p s) -> i <= idx q (papply i p s).
 Proof.
-  intros HBnd Hv Hq Hok Hc. destruct Hq; cbn [idx res] in *.
+  intros HBnd Hv Hq Hc. destruct Hq; cbn [idx res] in *.
   - (* KVS.Get *)
     assert (Hk : kvs (papply i p s) !! k <> kvs s !! k) by (intros Heq; apply Hc; rewrite Heq; reflexivity).
     pose proof (kv_row_changed i p s k Hv Hk) as Hrow.
@@ -248,28 +342,24 @@ Proof.
     { apply (kvs_changed i). intros Heq. apply Hk. rewrite Heq. reflexivity. }
     destruct (kvs (papply i p s) !! k) as [e'|]; [lia|].
     rewrite kv_table_max_set; [lia|apply HBnd|exact Hkk].
-  - apply kv_list_changed; try assumption. intros Heq. apply Hc. unfold under in Heq. rewrite Heq. reflexivity.
-  - apply kv_list_changed; try assumption. intros Heq. apply Hc. unfold under in Heq. rewrite Heq. reflexivity.
+  - apply kv_list_changed_all; try assumption. intros Heq. apply Hc. unfold under in Heq. rewrite Heq. reflexivity.
+  - apply kv_list_changed_all; try assumption. intros Heq. apply Hc. unfold under in Heq. rewrite Heq. reflexivity.
 Qed.
 
 Lemma kv_mono i p s q :
-  Bnd i s -> pvalid i p s -> kvq q -> kv_ok q p -> idx q s <= idx q (papply i p s).
+  Bnd i s -> pvalid i p s -> kvq q -> idx q s <= idx q (papply i p s).
 Proof.
-  intros HBnd Hv Hq Hok.
+  intros HBnd Hv Hq.
   pose proof (kv_idx_le i s q HBnd Hq) as Hle.
   destruct Hq; cbn [idx] in *.
   - destruct (decide (kvs (papply i p s) !! k = kvs s !! k)) as [Heq|Hne].
     + rewrite Heq. destruct (kvs s !! k); [lia|apply kv_table_max_mono, HBnd].
-    + pose proof (kv_changed i p s (QKVGetEP k) HBnd Hv (kq1 k) I) as H. cbn [idx res] in H.
+    + pose proof (kv_changed i p s (QKVGetEP k) HBnd Hv (kq1 k)) as H. cbn [idx res] in H.
       assert (i <= match kvs (papply i p s) !! k with Some e => kv_modify e | None => kv_table_max (papply i p s) end).
       { apply H. intros Heq. apply Hne.
         apply (f_equal (fun r => match r with RKV m => m !! k | _ => None end)) in Heq.
         cbn beta iota in Heq. rewrite !single_lookup in Heq. congruence. }
       lia.
-  - destruct (decide (under p0 (kvs (papply i p s)) = under p0 (kvs s))) as [Heq|Hne].
-    + apply kv_list_index_unchanged; assumption.
-    + pose proof (kv_list_changed i p0 p s HBnd Hv Hok Hne). lia.
-  - destruct (decide (under p0 (kvs (papply i p s)) = under p0 (kvs s))) as [Heq|Hne].
-    + apply kv_list_index_unchanged; assumption.
-    + pose proof (kv_list_changed i p0 p s HBnd Hv Hok Hne). lia.
+  - apply kv_list_mono_all; assumption.
+  - apply kv_list_mono_all; assumption.
 Qed.
